@@ -743,6 +743,8 @@ var Families = map[string]func(*fw.Rng, Poison) Built{
 	"fatal":    famFatal,
 	"misc":     famMisc,
 	"fielderr": famFieldErr,
+	"cells":    famCells,
+	"synerr":   famSynErr,
 }
 
 // FamilyNames in a fixed order (these families share one generator stream).
@@ -750,4 +752,4 @@ var FamilyNames = []string{"modules", "objects", "locals", "warnings", "impl", "
 
 // LateFamilyNames: families added after the first workloads were recorded. They draw from their own
 // generator stream, so that the cases of the older families stay what they were for every seed.
-var LateFamilyNames = []string{"fielderr"}
+var LateFamilyNames = []string{"fielderr", "cells", "synerr"}
